@@ -257,3 +257,25 @@ pub fn case_gamespy(rd: &mut Rd, ver: u8) -> R<String> {
         (..) => run_scripted(script, |r| canon(r), || gamespy::three::query_vars(&addr(port), ts)),
     })
 }
+
+/// family 50: single-game protocols. 0 ffow, 1 savage2, 2 jc2m, 3 mindustry, 4 theship, 5 battalion1944
+pub fn case_game(rd: &mut Rd) -> R<String> {
+    use gamedig::games;
+    let game = rd.u8()?;
+    let port = rd.u16()?;
+    let ts = rd_tsettings(rd)?;
+    let script = rd_script(rd)?;
+    let ts = match ts {
+        Ok(t) => t,
+        Err(e) => return Ok(format!("{e}|")),
+    };
+    let ip = IpAddr::V4(Ipv4Addr::LOCALHOST);
+    Ok(match game {
+        0 => run_scripted(script, |r| canon(r), || games::ffow::query_with_timeout(&ip, Some(port), ts)),
+        1 => run_scripted(script, |r| canon(r), || games::savage2::query_with_timeout(&ip, Some(port), ts)),
+        2 => run_scripted(script, |r| canon(r), || games::jc2m::query_with_timeout(&ip, Some(port), ts)),
+        3 => run_scripted(script, |r| canon(r), || games::mindustry::query(&ip, Some(port), &ts)),
+        4 => run_scripted(script, |r| canon(r), || games::theship::query_with_timeout(&ip, Some(port), ts)),
+        _ => run_scripted(script, |r| canon(r), || games::battalion1944::query(&ip, Some(port))),
+    })
+}
